@@ -772,3 +772,79 @@ func paramNilTest(c core.Cond, prm *ssa.Parameter) bool {
 	}
 	return (bo.X == ssa.Value(prm) && core.IsNilConst(bo.Y)) || (bo.Y == ssa.Value(prm) && core.IsNilConst(bo.X))
 }
+
+// REF-BLIND — a keyword read off a property's schema for an *absent* member must see through a reference: the
+// schema of a property may be {"$ref": …} and the keyword (the default) is then declared by the target. For a
+// present member the validator built for it expands the reference; for an absent one nothing does, unless the
+// code resolves the reference on its scratch copy before it reads the keyword. Structural condition: in the
+// function that records absent members with a default, the `.Default` read on the scratch schema is reachable
+// from a reference resolution (spec.ExpandSchema / a validator constructor) applied to the same scratch schema
+// under a test of its Ref.
+func RefBlind(p *core.Prog, r *core.Report) {
+	const rule = "REF-BLIND"
+	n := 0
+	for _, f := range p.Funcs {
+		// the recording site: a call that records property schemata for defaulting (addPropertySchemata) under a
+		// Default != nil test
+		var rec *ssa.Call
+		core.EachInstr(f, func(i ssa.Instruction) {
+			if c, ok := i.(*ssa.Call); ok {
+				if g := core.StaticCallee(c); g != nil && g.Name() == "addPropertySchemata" {
+					rec = c
+				}
+			}
+		})
+		if rec == nil || len(rec.Call.Args) < 4 {
+			continue
+		}
+		scratch := rec.Call.Args[3]
+		// the Default test guarding it
+		var defRead ssa.Instruction
+		for _, cd := range core.CondsAt(rec.Block()) {
+			if pth, ok := core.Path(condOperand(cd)); ok && strings.HasSuffix(pth, ".Default") && isNonNilCond(cd) {
+				defRead = cd.If
+			}
+		}
+		if defRead == nil {
+			continue
+		}
+		n++
+		key := core.FuncName(f) + ":Default"
+		resolved := false
+		core.EachInstr(f, func(i ssa.Instruction) {
+			c, ok := i.(*ssa.Call)
+			if !ok {
+				return
+			}
+			g := core.StaticCallee(c)
+			if g == nil || core.QualName(g) != "spec.ExpandSchema" || len(c.Call.Args) == 0 {
+				return
+			}
+			if c.Call.Args[0] != scratch {
+				// the scratch pointer lives in a cell (a deferred closure releases it): two loads of the same cell
+				pa, okA := core.Path(c.Call.Args[0])
+				pb, okB := core.Path(scratch)
+				if !okA || !okB || pa != pb {
+					return
+				}
+			}
+			// under a test of the scratch schema's reference, and on the way to the Default test
+			refTest := false
+			for _, cd := range core.ControlConds(c.Block()) {
+				if strings.Contains(condAtom(cd), "Ref") {
+					refTest = true
+				}
+			}
+			if refTest && core.Reaches(c, defRead) {
+				resolved = true
+			}
+		})
+		if resolved {
+			r.OK(rule, key, p.Pos(rec.Pos()), "a referenced property schema is resolved on the scratch copy before its default is looked at")
+		} else {
+			r.Bad(rule, key, p.Pos(rec.Pos()), "the default of an absent member is read off the property's schema as written: when that schema is a reference ({\"properties\": {\"a\": {\"$ref\": \"#/definitions/D\"}}}, D: {\"type\": \"integer\", \"default\": 5}) the default declared by the target is never seen — {} stays {} after ApplyDefaults, while a sibling with an inline default is filled")
+		}
+	}
+	r.Count("absent_default_sites", n)
+	r.Floor("absent_default_sites", 1)
+}
